@@ -208,13 +208,16 @@ def check(ctx):
         ctx.ob("C19.R6.sample-arg", f"{vh.qualname}|sample forwarded", oks, vh.where(),
                "the handler's sampling step is passed to the download" if oks else "the handler's sampling step is not passed to S3VersionUtil.get")
     ge = ctx.fn("elexmodel.client", "ModelClient.get_estimates")
+    # the handler handed to the model: under "get_versioned_results(..) is None" it must be None (any local naming)
     okc = False
-    for n in util.own_nodes(ge, ast.If):
-        t = n.test
-        if isinstance(t, ast.Compare) and isinstance(t.ops[0], ast.Is) and util.is_const(t.comparators[0], None) \
-                and isinstance(t.left, ast.Name) and t.left.id == "versioned_results":
-            okc = any(isinstance(x, ast.Assign) and isinstance(x.targets[0], ast.Name) and x.targets[0].id == "versioned_data_handler"
-                      and util.is_const(x.value, None) for x in n.body)
+    gsum = ctx.builder(inline=lambda *a: False).summarize(ge)
+    hterms = {v for _, _, t_, _ in gsum.assigns for x in ir.walk(t_) if x[0] == "call" for k, v in x[3] if k == "versioned_data_handler"}
+    for v in hterms:
+        for x in ir.walk(v):
+            if x[0] == "phi" and x[1][0] == "cmp" and x[1][1] == "is" and x[1][3] == NONE and x[1][2][0] == "call" \
+                    and x[1][2][1][0] == "attr" and x[1][2][1][2] == "get_versioned_results" and x[2] == NONE \
+                    and x[3] == x[1][2][1][1]:
+                okc = True
     ctx.ob("C19.R5.client", f"{ge.qualname}|no data means no handler", okc, ge.where(),
            "client drops the versioned handler when no data was found" if okc else "client keeps a versioned handler without data")
 
